@@ -5,6 +5,7 @@ import (
 	"fmt"
 	"reflect"
 	"strings"
+	"time"
 
 	ap "github.com/go-ap/activitypub"
 )
@@ -158,6 +159,18 @@ func c18Share(to, from ap.Item, alias interface{}) {
 			return reflect.Value{}
 		}
 		return f
+	}
+	// {"zonedZero": true}: the instants that are unset in `from` are the zero instant seen in a zone (what
+	// time.Time{}.In(zone) or .Local() gives, or a parse of 0001-01-01T01:00:00+01:00): still unset (IsZero)
+	if a["zonedZero"] == true {
+		if v := reflect.ValueOf(from); v.IsValid() && v.Kind() == reflect.Ptr && !v.IsNil() && v.Elem().Kind() == reflect.Struct {
+			zz := time.Time{}.In(time.FixedZone("", 3600))
+			for i := 0; i < v.Elem().NumField(); i++ {
+				if f := v.Elem().Field(i); f.Type() == reflect.TypeOf(time.Time{}) && f.CanSet() && f.Interface().(time.Time).IsZero() {
+					f.Set(reflect.ValueOf(zz))
+				}
+			}
+		}
 	}
 	if l := asList(a["to"]); len(l) == 2 {
 		fa, fb := field(to, l[0].(string)), field(to, l[1].(string))
@@ -371,6 +384,10 @@ func init() {
 				continue
 			case p < 32:
 				c18Case(c, T{"iri": id}, T{"iri": id}, "iri-pair")
+				continue
+			}
+			if from["ptr"] == true && c.R.Chance(25) {
+				c18Case(c, to, from, tag+"+unset-instants-seen-in-a-zone", T{"zonedZero": true})
 				continue
 			}
 			c18Case(c, to, from, tag)
